@@ -233,6 +233,25 @@ def build(rng, tier):
                             return tuple(vals[k] if k in vals else (0 if t == "int" else "none") for k, t in enumerate(tys))
                         inputs[j] = dict(inputs[j]); inputs[j][r] = [row(a, (a + 1) % n) for a in range(n)]; inputs[j][ru["heads"][0][0]] = []
         add(f"h{i}", p, q, "general", inputs, bare=not f26_class(p))       # expression arguments without parentheses wherever grouping cannot matter
+    # forced stream "identifier-free invocations": macros invoked with NO identifier among their arguments - `m!()` of a parameterless macro, `m!(1)` / `m!(2)` with literal
+    # arguments - whose bodies introduce a local variable: two such invocations in one rule each get their own copy of the local, a call-site variable with the local's
+    # spelling stays a different variable, and a parameterless macro may invoke another one with literal arguments
+    for i in range(3 if quick else 6):
+        lit = {"params": ["expr"], "body": [("cl", 0, [("e", ("var", ("p", 0))), ("v", 7)], [])]}
+        nop = {"params": [], "body": [("cl", 0, [("e", 0), ("v", 7)], [])]}
+        nest = {"params": [], "body": [("mac", 0, [("ex", 1)]), ("mac", 0, [("ex", 2)])]}
+        p = {"rels": [{"arity": 2}, {"arity": 1}, {"arity": 1}, {"arity": 1}, {"arity": 0}, {"arity": 2}], "macros": [lit, nop, nest], "rules": []}
+        p["rules"].append({"heads": [(2, [("var", 0)])], "body": [("mac", 0, [("ex", 1)]), ("mac", 0, [("ex", 2)]), ("cl", 1, [("v", 0)], [])]})
+        p["rules"].append({"heads": [(3, [("var", 7)])], "body": [("cl", 1, [("v", 7)], []), ("mac", 1, [])] if i % 2 == 0 else [("mac", 1, []), ("cl", 1, [("v", 7)], [])]})
+        p["rules"].append({"heads": [(4, [])], "body": [("mac", 2, [])]})
+        p["rules"].append({"heads": [(5, [("var", 7), ("var", 8)])], "body": [("cl", 1, [("v", 7)], []), ("cl", 1, [("v", 8)], []), ("mac", 0, [("ex", ("add", ("var", 8), 0))])] if i % 3 else [("cl", 1, [("v", 7)], []), ("cl", 1, [("v", 8)], []), ("mac", 0, [("ex", 1)])]})
+        q = S.expand_spec(p)
+        inputs = []
+        for j in range(4 if quick else 10):
+            g = rng.fork(f"idf_{i}i{j}")
+            e = [(0, 5), (1, 6), (2, 7)] if j == 0 else list(dict.fromkeys((g.below(4), 5 + g.below(4)) for _ in range(g.range(2, 6))))
+            inputs.append({0: e, 1: [(x,) for x in range(g.range(2, 6))], 2: [], 3: [], 4: [], 5: []})
+        add(f"f{i}", p, q, "identifier-free-invocations", inputs)
     nf25 = 0
     for i, (p, shape) in enumerate(f25_programs(rng.fork("f25"), 6 if quick else 12)):
         q = S.expand_spec(p)
